@@ -82,6 +82,8 @@ pub fn rule_pool(lang: LangId) -> Vec<RuleTxt> {
             r("lam-lam-use", "(lam $x (lam $y (p (v $x) ?a)))", "(lam $y (lam $x (p ?a (v $x))))"),
             r("q2-q2-v", "(q2 $x (q2 $y (v $x)))", "(q2 $y (v $y))"),
             r("g3-v-first", "(p (g3 $x $y $z) (v $x))", "(p (g3 $z $y $x) (v $z))"),
+            r("bb-swap", "(bb $x ?a $y ?b)", "(bb $y ?b $x ?a)"),
+            r("bb-same", "(bb $x ?a $x ?a)", "(lam $x ?a)"),
         ],
         LangId::Lambda => vec![
             rs("beta", "(app (lam $x ?b) ?e)", "?b[(var $x) := ?e]"),
